@@ -227,3 +227,21 @@ PROPS['C07'] = dict(
     technique='metamorphic-law monitor (a + until == b, sign, balance, since = -until, exact distance) over seeded pairs; release + debug-assertion builds',
     design_ref='DESIGN.md section 4, C07',
 )
+
+PROPS['C13'] = dict(
+    sub='c13',
+    prep=['synth'],
+    quick=[S('rel'), S('dbg', 'zone_stride=3')],
+    thorough=[S('rel'), S('dbg')],
+    rule='seeded operation sequences of length 1..8 from a start instant (within +-28 h of a transition of the start zone, at the range limits, or uniform) over 22 operations: checked/saturating add/sub of spans, round, with().{day,hour,minute,month,year,subsec,day_of_year}, '
+         'with().offset().offset_conflict().disambiguation(), start/end_of_day, tomorrow/yesterday, first/last_of_month/year, nth_weekday, nth_weekday_of_month, with_time_zone (hopping between three zones), DateTime::to_zoned, Zoned::new, print->parse, strftime->strptime. '
+         'After every step the produced Zoned must satisfy offset()==time_zone().to_offset(timestamp()), datetime()==offset().to_datetime(timestamp()) and agree with the corroborated zone model; with_time_zone must keep the instant; '
+         'at the end ==, cmp and Hash are compared for the same instant in another zone and for an instant 1 ns later. All Zoned values produced by the C06 check are also monitored. '
+         'distinct_nontrivial = distinct (operation trace, start instant, start zone)',
+    floors={'quick': {'sequences': 300000, 'zones': 1000, 'zoned_values_checked_for_consistency': 1000000}, 'thorough': {'sequences': 5000000}},
+    assumptions=TZ_ASSUME,
+    level_text='Invariant monitoring over operation histories: hundreds of thousands of seeded sequences of public operations per run, in ~1700 zones and biased to transitions, with the consistency invariant asserted on every intermediate value (by jiff\'s own accessors and by the independent zone model) and equality/ordering/hash checked against instants.',
+    level_note='Trusted base: the invariant itself is stated in terms of jiff\'s public accessors; tzref.rs corroborates the offset. Sequences are sampled (22^8 orders are not enumerated).',
+    technique='invariant monitor at every step of seeded operation sequences (histories); release + debug-assertion builds',
+    design_ref='DESIGN.md section 4, C13',
+)
